@@ -31,6 +31,7 @@
 //!   delW <w> | delR <r> | delPUB <i> | delSUB <i> | delT <i> | delP <i> | delall <p>
 //!   inject <p> <meta 0|1> <hex>              hand a raw datagram to participant p
 //!   sent                                     summary of user datagrams sent since the last `sent`
+#![allow(dead_code)]
 use dust_dds::dds_async::data_reader::DataReaderAsync;
 use dust_dds::dds_async::data_writer::DataWriterAsync;
 use dust_dds::dds_async::domain_participant::DomainParticipantAsync;
